@@ -160,12 +160,63 @@ def build_harness(race=False):
     return exe, out
 
 
+def _limits():
+    import resource
+    # a runaway allocation must kill the harness quickly instead of thrashing the machine
+    resource.setrlimit(resource.RLIMIT_AS, (24 << 30, 24 << 30))
+
+
 def run_harness(exe, ops_path, out_path, timeout=1200, extra_env=None):
-    env = dict(GOENV, VERIF_OPS=ops_path, VERIF_OUT=out_path, GOMEMLIMIT="6GiB")
+    """Run the executor. If the process dies (fatal error in a goroutine of the code under test,
+    out of memory, timeout) the op that was being executed is identified by the number of result
+    lines written, its result becomes `process-died`, and the remaining ops are run in a new process."""
+    env = dict(GOENV, VERIF_OPS=ops_path, VERIF_OUT=out_path, GOMEMLIMIT="8GiB")
     if extra_env:
         env.update(extra_env)
-    rc, out = run([exe, "-test.run", "^TestVerifHarness$", "-test.timeout", "%ds" % timeout], cwd=BUILD, env=env, timeout=timeout + 30)
-    return rc, out
+    ops = [l for l in open(ops_path).read().split("\n") if l.strip()]
+    done = []
+    crashes = 0
+    log = ""
+    cur_ops = ops
+    while True:
+        part_ops = ops_path + ".part"
+        part_out = out_path + ".part"
+        open(part_ops, "w").write("\n".join(cur_ops) + "\n")
+        if os.path.exists(part_out):
+            os.remove(part_out)
+        env2 = dict(env, VERIF_OPS=part_ops, VERIF_OUT=part_out)
+        try:
+            p = subprocess.run([exe, "-test.run", "^TestVerifHarness$", "-test.timeout", "%ds" % timeout], cwd=BUILD, env=env2,
+                               stdout=subprocess.PIPE, stderr=subprocess.STDOUT, timeout=timeout + 30, text=True, preexec_fn=_limits)
+            rc, out = p.returncode, p.stdout
+        except subprocess.TimeoutExpired as e:
+            rc, out = 124, "timeout"
+        log += out[-3000:]
+        got = open(part_out).read().split("\n") if os.path.exists(part_out) else []
+        if got and got[-1] == "":
+            got.pop()
+        if rc == 0 and len(got) == len(cur_ops):
+            done += got
+            break
+        # the process died while executing op number len(got)+1 of this part
+        crashes += 1
+        k = min(len(got), len(cur_ops) - 1)
+        done += got[:k] + ["process-died " + (re.sub(r"\s+", "_", (re.search(r"(fatal error: [^\n]*|panic: [^\n]*|signal: [^\n]*)", out) or re.match(r"", "")).group(0))[:200] or "rc=%d" % rc)]
+        rest = cur_ops[k + 1:]
+        # resume at the next reset op so that stateful streams stay consistent
+        j = 0
+        while j < len(rest) and not (len(rest[j].split()) > 1 and (rest[j].split()[1] in ("cfg", "new", "start") or rest[j].split()[0] in ("std", "codec", "msg", "frame", "udpbuf"))):
+            done.append("not-run")
+            j += 1
+        cur_ops = rest[j:]
+        if not cur_ops or crashes >= 20:
+            done += ["not-run"] * len(cur_ops)
+            break
+    open(out_path, "w").write("\n".join(done) + "\n")
+    for f in (ops_path + ".part", out_path + ".part"):
+        if os.path.exists(f):
+            os.remove(f)
+    return 0, log
 
 
 def sipdrv():
